@@ -170,7 +170,7 @@ def via_route(pvl, route, text, kw):
     if route == "load(binary stream)":
         return pvl.load(io.BytesIO(data), **kw)
     # attached-label product: image data behind the END statement
-    tail = b"\nEND\n\xff\xfe\x00\x81 = ( \xc3"
+    tail = b" \nEND\n\xff\xfe\x00\x81 = ( \xc3"   # (a blank first: the text may end in a dash)
     if route == "loads(bytes+data)":
         return pvl.loads(data + tail, **kw)
     if route == "load(binary stream+data)":
@@ -350,7 +350,9 @@ def case(rec, pvl, pairing, key, classes):
             pre = ("exc", e)
     try:
         with common.cpu_limit(60):
-            plain = load_with(pvl, pairing, text, {}, classes, shared)
+            # (through the same entry point: a file opened in text mode
+            # translates line ends, also inside quoted strings)
+            plain = load_with(pvl, pairing, text, {}, classes, shared, route)
     except Exception:
         rec.count("plain_load_failed_not_judged")
         return
